@@ -279,4 +279,69 @@ WriteOnce(st, r) == \A i \in Ids : st.reg[i] # "none" => (r.post.reg[i] = st.reg
 (* every registered native token is owned by the service, which can mint for inbound transfers *)
 ServiceCanMint(st) == \A i \in Ids : st.reg[i] = "native" => st.minters[i]["its"]
 NonNegative(st) == (\A t \in Tokens, x \in Accts : st.bal[t][x] >= 0) /\ (\A x \in Accts : st.gas[x] >= 0)
+
+-----------------------------------------------------------------------------
+(* Composition with Token.tla and GasService.tla.  This module folds the ledgers of the tokens it deploys
+   and of the gas service into its own state.  The two step properties below say that this folding is
+   faithful: every successful step of the service moves each service-deployed token exactly as the listed
+   calls of Token.tla do (all of which Token.tla accepts), and moves the gas ledger exactly as
+   GasService!PayGas does.  TLC checks them on the ITS instances, so a change to Token.tla or
+   GasService.tla that the service's model does not follow is a specification error, not a silent drift. *)
+Tok == INSTANCE Token WITH Cap <- 0, MaxLive <- 6311999
+GS == INSTANCE GasService WITH Tokens <- {"gas"}
+
+TokState(st, T) ==
+    [bal |-> st.bal[T], allow |-> [f \in Accts |-> [x \in Accts |-> [amt |-> 0, exp |-> 0]]],
+     minters |-> st.minters[T], owner |-> "its", seq |-> 1]
+RECURSIVE TokRun(_, _)
+TokRun(ts, acts) ==
+    IF acts = <<>> THEN [ok |-> TRUE, st |-> ts]
+    ELSE LET r == Tok!Apply(ts, Head(acts)) IN
+         IF ~r.ok THEN [ok |-> FALSE, st |-> ts] ELSE TokRun(r.post, Tail(acts))
+InboundPayload(a) ==
+    IF a.name = "Execute" THEN Payloads[Deliveries[a.d].payload]
+    ELSE IF a.name = "Deliver" THEN Payloads[a.payload] ELSE [inner |-> "none", id |-> "none"]
+(* the calls the service makes on the EXISTING service-deployed token T during action a *)
+TokCalls(st, a, T) ==
+    LET P == InboundPayload(a) IN
+    CASE a.name = "InterchainTransfer" /\ a.id = T ->
+            <<[name |-> "Burn", from |-> a.caller, amt |-> a.amt, auth |-> {a.caller}]>>
+      [] a.name \in {"Execute", "Deliver"} /\ P.inner = "transfer" /\ P.id = T ->
+            <<[name |-> "MintFrom", minter |-> "its", to |-> P.recipient, amt |-> P.amt, auth |-> {"its"}]>>
+      [] a.name = "MinterMint" /\ a.id = T ->
+            <<[name |-> "MintFrom", minter |-> a.minter, to |-> a.to, amt |-> a.amt, auth |-> a.auth]>>
+      [] OTHER -> <<>>
+(* the constructor arguments and the calls that follow when action a creates the token T *)
+TokBirth(a, T, devs) ==
+    LET P == InboundPayload(a) IN
+    IF a.name = "DeployInterchainToken"
+    THEN LET third == a.minter \notin {"none", "its"} IN
+         [minter |-> IF a.supply > 0 THEN "its" ELSE a.minter,
+          calls |-> IF a.supply > 0
+                    THEN <<[name |-> "Mint", to |-> a.caller, amt |-> a.supply, auth |-> {"its"}]>>
+                         \o (IF third /\ "its_minter_revoked" \in devs
+                             THEN <<[name |-> "RemoveMinter", minter |-> "its", auth |-> {"its"}]>> ELSE <<>>)
+                         \o (IF third THEN <<[name |-> "AddMinter", minter |-> a.minter, auth |-> {"its"}]>> ELSE <<>>)
+                    ELSE <<>>]
+    ELSE [minter |-> P.minter, calls |-> <<>>]       \* deployed by an inbound hub message
+TokenRefines(st, a, r, devs) ==
+    r.ok => \A T \in Ids :
+        IF st.reg[T] = "native"
+        THEN LET run == TokRun(TokState(st, T), TokCalls(st, a, T)) IN run.ok /\ run.st = TokState(r.post, T)
+        ELSE r.post.reg[T] = "native" =>
+                LET b == TokBirth(a, T, devs)
+                    run == TokRun(Tok!Blank("its", b.minter, 1), b.calls) IN
+                run.ok /\ run.st = TokState(r.post, T)
+
+GasState(st) == [bal |-> [t \in {"gas"} |-> st.gas], collector |-> "collector", owner |-> "gsowner"]
+GasCalls(a) ==
+    CASE a.name \in {"InterchainTransfer", "DeployRemoteInterchainToken", "ExampleSend"} ->
+            <<[name |-> "PayGas", sender |-> "its", spender |-> a.caller, token |-> "gas", amt |-> a.gas, auth |-> {a.caller}]>>
+      [] a.name = "DeployRemoteCanonical" ->
+            <<[name |-> "PayGas", sender |-> "its", spender |-> a.spender, token |-> "gas", amt |-> a.gas, auth |-> {a.spender}]>>
+      [] OTHER -> <<>>
+GasRefines(st, a, r) ==
+    r.ok => LET calls == GasCalls(a) IN
+            IF calls = <<>> THEN r.post.gas = st.gas
+            ELSE LET g == GS!Apply(GasState(st), calls[1]) IN g.ok /\ g.post.bal["gas"] = r.post.gas
 =============================================================================
